@@ -170,7 +170,7 @@ def main(argv):
     tier = a.tier if a.tier in ("quick", "thorough") else "quick"
     os.environ["VERIF_TIER_EFFECTIVE"] = tier
     t0 = time.time()
-    run_id = f"{prop}_{tier}"
+    run_id = f"{prop}_{tier}" + os.environ.get("VERIF_OUT_SUFFIX", "")
     outdir = os.path.join(OUT, run_id)
     shutil.rmtree(outdir, ignore_errors=True)
     os.makedirs(outdir, exist_ok=True)
@@ -292,6 +292,34 @@ def main(argv):
     if errors:
         status = 3 if status != 1 else 1
 
+    # ---- thorough tier: self-test of this check on the seeded changes aimed at this property
+    selftest = None
+    if tier == "thorough" and REPO == "/repo" and not os.environ.get("VERIF_NO_SELFTEST"):
+        import tempfile
+
+        selftest = {}
+        for sid in sorted(os.listdir(os.path.join(HERE, "seeded"))) if os.path.isdir(os.path.join(HERE, "seeded")) else []:
+            try:
+                meta = json.load(open(os.path.join(HERE, "seeded", sid, "meta.json")))
+            except Exception:  # noqa: BLE001
+                continue
+            if meta.get("property") != prop:
+                continue
+            d = tempfile.mkdtemp(prefix="selftest_")
+            try:
+                shutil.copytree(os.path.join(REPO, "src"), os.path.join(d, "src"))
+                ap_ = subprocess.run(["patch", "-p1", "-s", "-i", os.path.join(HERE, "seeded", sid, "patch.diff")], cwd=d, capture_output=True, text=True)
+                if ap_.returncode != 0:
+                    selftest[sid] = "patch does not apply"
+                    continue
+                env = dict(os.environ, VERIF_REPO=d, VERIF_OUT_SUFFIX="_selftest", VERIF_NO_EVIDENCE="1", VERIF_NO_SELFTEST="1")
+                q = subprocess.run([os.path.join(HERE, "check"), prop, "--tier", "quick"], env=env, capture_output=True, text=True, timeout=1800, cwd=HERE)
+                selftest[sid] = f"exit {q.returncode}" + (" (detected)" if q.returncode == 1 else " (NOT detected)")
+            except subprocess.TimeoutExpired:
+                selftest[sid] = "timed out"
+            finally:
+                shutil.rmtree(d, ignore_errors=True)
+
     wall = time.time() - t0
     # ---- evidence
     os.makedirs(EVID, exist_ok=True)
@@ -323,6 +351,8 @@ def main(argv):
         coverage["model_vs_real_crosscheck"] = crosscheck
     if ghostc is not None:
         coverage["ghost_view_conformance_sampler"] = ghostc
+    if selftest is not None:
+        coverage["selftest_on_seeded_changes"] = selftest
     if bounded is not None:
         coverage["bounded_stand_in"] = {k: bounded.get(k) for k in ("evaluations", "distinct_nontrivial", "rule", "bound", "skipped", "error") if k in bounded}
         coverage["bounded_stand_in"]["violations"] = len(bounded.get("violations", []))
@@ -340,7 +370,8 @@ def main(argv):
         "wall_s": round(wall, 2),
         "violations": sum(1 for l in lines if l.startswith("VIOLATION")),
     }
-    json.dump(ev, open(os.path.join(EVID, f"{prop}.json"), "w"), indent=1, default=str)
+    if not os.environ.get("VERIF_NO_EVIDENCE"):
+        json.dump(ev, open(os.path.join(EVID, f"{prop}.json"), "w"), indent=1, default=str)
 
     print(f"{prop} [{tier}] functions={len(functions)} obligations={n_obl} discharged={n_dis} failed={len(failed)} undecided={len(undecided)} "
           f"known={len(known_hits)} errors={len(errors)} wall={wall:.1f}s")
@@ -348,6 +379,8 @@ def main(argv):
         print(f"  bounded stand-in: evaluations={bounded.get('evaluations')} violations={len(bounded.get('violations', []))}")
     for l in lines:
         print(l)
+    if selftest:
+        print("  self-test on seeded changes:", ", ".join(f"{k}: {v}" for k, v in selftest.items()))
     for _, r in undecided[:10]:
         print(f"  UNDECIDED {r['id']}: {r['label'][:200]}")
     for t, e in errors[:5]:
